@@ -156,7 +156,7 @@ func (w *world) serve(c Case, q Rq, val any) *rig.Outcome {
 }
 
 func summary(o *rig.Outcome) string {
-	s := fmt.Sprintf("%s/%s route=%q params=%v params-after-handler=%v status=%d mws=%v", o.BaseKind, o.BaseID, o.Pattern, o.Params, o.ParamsAfter, o.EffStatus(), o.Trace)
+	s := fmt.Sprintf("%s/%s route=%q params=%v params-after-handler=%v status=%d mws=%v content-length=%q body-bytes=%d", o.BaseKind, o.BaseID, o.Pattern, o.Params, o.ParamsAfter, o.EffStatus(), o.Trace, o.Header.Get("Content-Length"), len(o.Body))
 	if o.SubOutcome != nil {
 		s += " nested[" + summary(o.SubOutcome) + "]"
 	}
